@@ -8,9 +8,11 @@ Three parties per generated program of compose calls:
     a chain, never an alignment", class honesty as a predicate on the result matrix, invertibility, and a
     digest of every pre-existing object before/after each call;
   * the Lean model (Core/C03Compose.lean): the same store and statements as exact rationals; compared are the
-    kind / class / matrix / chain member references of every result and of the whole final store.
-The class table is regenerated from the live classes on every run (harness/extract_c03.py) and must equal the
-table the theorems are about (GenProps/C03.lean).
+    kind / dimension / class / matrix / chain member references of every result and of the whole final store, the
+    image of a probe point under chains (through WithDims, dimension-changing included), the matrix from_vector
+    builds, and whether a chain still denotes a map after it was appended to itself.
+The class table and the method-resolution table are regenerated from the live classes on every run
+(harness/extract_c03.py) and must equal the tables the theorems are about (GenProps/C03.lean).
 """
 import json
 import os
@@ -21,48 +23,73 @@ from . import extract_c03
 
 PROP = "C03"
 INFO = dict(
-    technique="Lean 4 proof over an executable model of the composition machinery (dimension-generic exact "
-              "rational matrices, the isinstance ladder transcribed branch for branch, a reference store for "
-              "chains) + class table regenerated from the live classes with `decide` obligations + "
-              "model/implementation correspondence on all class pairs and on random programs",
+    technique="Lean 4 proof over an executable model of the composition machinery (exact rational matrices of any "
+              "dimension side by side in one reference store, the isinstance ladder transcribed branch for branch, "
+              "chains as reference lists, WithDims as a dimension-changing slicer, from_vector of every family class) "
+              "+ class table and method-resolution table regenerated from the live classes with `decide` obligations "
+              "+ model/implementation correspondence on all class pairs, cross-dimension pairs, nested and "
+              "self-containing chains and random programs",
     level_text="Theorems, for every dimension and all parameter values: composition law for compose_before/after "
                "(every pair of the 12 family classes; projective Homogeneous wherever denominators are non-zero; "
-               "chains and opaque transforms by structural denotation), result is a single non-alignment family "
-               "member whose class invariant really holds and which is invertible, in-place calls are gated "
-               "exactly by composes_inplace_with and produce the same map, non-in-place calls leave every "
-               "existing store cell unchanged, all of this along every finite program of compose calls "
-               "(induction over programs), and Affine.decompose recomposes under the SVD contract.  The class "
-               "structure the theorems quantify over is tied to /repo by the regenerated table "
-               "(`classTable_ok`), the behaviour by the correspondence, and an independent oracle decides the "
-               "property on the real objects.",
+               "chains, WithDims - dimension-changing included - and opaque transforms by structural denotation), "
+               "result is a single non-alignment family member whose class invariant really holds and which is "
+               "invertible, operands of different dimension are refused without effect, in-place calls are gated "
+               "exactly by composes_inplace_with and produce the same map, compose_after_from_vector_inplace is "
+               "always admitted and obeys the law with from_vector(v) modelled for vectors of every length (numpy's "
+               "broadcasting and cycling included) and proved honest for every class (quaternion formula included), "
+               "in-place composition on a chain obeys the law exactly when the operand does not "
+               "contain the receiver and otherwise leaves a chain without denotation, chains are not flattened, "
+               "non-in-place calls leave every existing store cell unchanged, every object keeps kind, dimension and "
+               "class and every non-receiver stays the same cell along every finite program (induction over "
+               "programs), a dimension calculus is sound for apply and total on affine chains, Affine.decompose "
+               "recomposes and returns honest pieces under the SVD contract (with the determinant bookkeeping that "
+               "says when a piece is a reflection).  The class structure and the method resolution the theorems "
+               "quantify over are tied to /repo by the regenerated tables (`classTable_ok`, `methodTable_ok`), the "
+               "behaviour by the correspondence, and an independent oracle decides the property on the real objects.",
     level_note="Trusted: Lean kernel; axioms propext/Classical.choice/Quot.sound; harness/extract_c03.py, this "
-               "harness and the driver's parser; numpy's dot/svd (the SVD contract L = U diag(s) V is checked "
-               "numerically on every decomposition case); float rounding is outside the model (exact rationals; "
-               "comparison 1e-9 relative plus an error bound from the product of operand norms).",
-    rule="a case is one statement executed on the real objects (a pair-battery statement or one step of a random "
-         "program of 2-8 compose calls over a store of 3-7 atoms) or one decomposition; distinct = distinct "
-         "(dimension, operation, operand kinds, operand parameters); non-trivial = both operands are not identity "
-         "maps (always, by construction of the generators)",
-    partial=["dimension-changing WithDims (3-D to 2-D) is checked by the oracle on the real code only: the Lean "
-             "store is typed by one dimension, so model programs only use dimension-preserving WithDims",
-             "in-place composition on a chain is proved under the hypothesis that neither the operand nor a member "
-             "contains the receiver (Python itself recurses forever on such a chain); the generator respects it",
-             "Affine.decompose: the theorem takes numpy's SVD factors as a contract parameter (L = U diag(s) V, "
-             "checked numerically per case); the Scale factory's np.allclose decision is modelled as a Boolean input "
-             "and cases within 1e-3..1e-9 of the uniform/non-uniform tie are excluded by the generator",
-             "honesty of the pieces returned by decompose (Rotation(U) may be a reflection) is not claimed; only "
-             "that they recompose"],
+               "harness and the driver's parser; numpy's dot/svd (the SVD contract L = U diag(s) V, U and V "
+               "orthogonal, s > 0 is checked numerically on every decomposition case); float rounding is outside the "
+               "model (exact rationals; comparison 1e-9 relative plus an error bound from the product of operand "
+               "norms).",
+    rule="a case is one statement executed on the real objects (a pair / cross-dimension / from-vector / nested-chain / "
+         "self-containing-chain battery statement or one step of a random program of 2-8 compose calls over a store "
+         "of 3-7 atoms, three programs in ten mixing 2-D and 3-D atoms with WithDims slicers), one from_vector "
+         "matrix, one apply or one decomposition; distinct = distinct (dimension, operation, operand kinds, operand "
+         "parameters and previous lives); non-trivial = both operands are not identity maps (always, by construction "
+         "of the generators)",
+    partial=["Affine.decompose: numpy's SVD is a contract parameter (L = U diag(s) V with U, V orthogonal and s > 0, "
+             "checked numerically per case - singular values are irrational); the Scale factory's np.allclose decision "
+             "is a Boolean input of the model: recomposition is proved when it says 'uniform' only for equal factors "
+             "(decompose_near_tie_witness shows the hypothesis cannot be dropped) and cases within 1e-3..1e-9 of "
+             "the uniform/non-uniform tie are excluded by the generator (DESIGN section 3 item 2)",
+             "'Rotation' honesty is orthogonality of the linear part (what menpo's Rotation class admits, mirrored "
+             "alignments included); decompose_reflection states when a piece of a decomposition is improper",
+             "from_vector of Translation / NonUniformScale given a vector of another length: the model follows numpy's "
+             "broadcasting / cycling as coded; this is compared on from_vector directly (a refusal would be accepted "
+             "as well) and such vectors are not used inside programs",
+             "WithDims is modelled for index lists and Boolean masks (the two documented spellings); slices and "
+             "negative indices are not generated",
+             "a chain appended to something that contains it: the model says 'no denotation at any fuel', the "
+             "implementation raises RecursionError on apply; tied by the correspondence, not judged by the oracle "
+             "(the property does not speak about it)"],
     assumptions=["operands are honest and invertible when created (constructor arguments really are rotations, "
                  "non-zero scales, ...; checked on every atom)",
-                 "probe points at which a projective Homogeneous operand has a denominator below 1e-3 are skipped"],
+                 "probe points at which a projective Homogeneous operand has a denominator below 1e-3 are skipped",
+                 "parameter vectors given to compose_after_from_vector_inplace describe honest invertible members "
+                 "(non-zero scales, non-degenerate similarity; side condition `Proper` of the program theorems)"],
     design_ref="DESIGN.md section 6, C03")
 IMPORTS = ["MenpoModel.Props.C03"]
 NS = "MenpoModel.C03."
 THEOREMS = [NS + t for t in [
     "resultCls_sound", "ladder_total", "compose_closed_sound", "compose_before_law", "compose_after_law",
-    "compose_law_affine", "compose_family_single", "compose_frame", "inplace_frame", "step_compose_law",
-    "inplace_gate", "inplace_law", "inplace_chain_law", "prog_honest", "prog_denotation",
-    "decompose_recomposes", "det_lin_mul", "coded_inplace_breaks_honesty", "coded_program_breaks_law"]]
+    "compose_law_affine", "compose_family_single", "compose_dim_mismatch", "compose_frame", "inplace_frame",
+    "step_compose_law", "step_compose_dims", "apply_dim_sound", "apply_total_affine", "withMask_eq_withDims",
+    "inplace_gate", "inplace_law", "inplace_chain_law", "inplace_chain_exact", "chain_compose_not_flattened",
+    "own_class_accepted", "fromVec_honest", "quatRot_orth", "fromVector_law",
+    "prog_honest", "prog_denotation", "prog_frame", "prog_class_stable",
+    "decompose_recomposes", "decompose_pieces_honest", "decompose_reflection", "decompose_discrete",
+    "decompose_near_tie_witness", "det_lin_mul", "method_resolution_family", "method_resolution_others",
+    "coded_inplace_breaks_honesty", "coded_program_breaks_law"]]
 
 FAMILY = extract_c03.ORDER
 BASE = {"AlignmentAffine": "Affine", "AlignmentSimilarity": "Similarity", "AlignmentRotation": "Rotation",
@@ -228,6 +255,11 @@ def gen_atom(rng, kind, d, n_existing=0, chainable=None):
         noise = rng.random() < 0.5
         tgt = [[x + (Fraction(rng.randint(-2, 2), 16) if noise else 0) for x in apply_exact(m, p)] for p in src]
         r["src"], r["tgt"] = S(src), S(tgt)
+        # constructor options (they change which member of the class is fitted, never the class)
+        if base == "Similarity" and rng.random() < 0.3:
+            r["opts"] = {"rotation": False}
+        elif base in ("Similarity", "Rotation") and rng.random() < 0.25:
+            r["opts"] = {"allow_mirror": True}
     elif kind == "TransformChain":
         pool = list(chainable if chainable is not None else range(n_existing))
         k = min(len(pool), rng.choice([1, 2, 2, 3]))
@@ -239,22 +271,82 @@ def gen_atom(rng, kind, d, n_existing=0, chainable=None):
         tgt = [[x + Fraction(rng.randint(-4, 4), 4) for x in p] for p in src]
         r["src"], r["tgt"] = S(src), S(tgt)
     elif kind == "WithDims":
-        perms = [[1, 0]] if d == 2 else [[1, 0, 2], [2, 0, 1], [0, 2, 1]]
+        # dimension preserving permutations, 3-D -> 2-D projections, 2-D -> 3-D embeddings with a repeated axis
+        perms = ([[1, 0], [1, 0], [0, 1, 0], [1, 1, 0]] if d == 2
+                 else [[1, 0, 2], [2, 0, 1], [0, 2, 1], [0, 1], [0, 2], [2, 1], [1, 0]])
         r["dims"] = rng.choice(perms)
+        if rng.random() < 0.25:       # the other documented spelling: a Boolean mask over the axes
+            r["dims"] = rng.choice([[True, True], [True, False]] if d == 2
+                                   else [[True, True, False], [True, False, True], [False, True, True], [True, True, True]])
+            r["mask"] = rng.choice(["array", "list"])
     else:
         raise ValueError(kind)
     return r
 
 
+LIVES = ["decomposed", "str", "copy", "pinv2", "int", "retarget", "fromvec", "applied", "asvec"]
+
+
+def with_life(rng, recipe, p=0.35):
+    """give the atom a previous life (none of them may change what the object is): it was decomposed / printed /
+    applied / vectorised before, is a copy, the double pseudoinverse or the from_vector image of itself, was built from
+    an integer-typed matrix, or is an alignment that was first fitted to another target"""
+    if rng.random() < p and recipe["k"] not in ("TransformChain", "WithDims"):
+        recipe = dict(recipe, life=rng.choice(LIVES))
+    return recipe
+
+
 def build(recipe, objs):
-    """the real menpo object of a recipe"""
+    """the real menpo object of a recipe (after its previous life, if it has one)"""
+    o = build_fresh(recipe, objs)
+    life = recipe.get("life")
+    if life is None:
+        return o
+    import numpy as np
+    import warnings
+    fam = is_family(o)
+    try:
+        with warnings.catch_warnings():
+            warnings.simplefilter("ignore")
+            if life == "decomposed" and hasattr(o, "decompose"):
+                o.decompose()
+            elif life == "str" and fam:
+                try:
+                    str(o)
+                except Exception:
+                    pass    # printing is not a clause of this property
+            elif life == "copy":
+                o = o.copy()
+            elif life == "pinv2" and fam:
+                o = o.pseudoinverse().pseudoinverse()
+            elif life == "applied":
+                d = recipe["d"]
+                o.apply(np.array([[0.5] * d, [1.0] * d, [-2.0] + [0.25] * (d - 1)]))
+            elif life == "asvec" and fam:
+                o.as_vector()
+            elif life == "fromvec" and fam:
+                o = o.from_vector(o.as_vector())
+            elif life == "retarget" and recipe["k"].startswith("Alignment"):
+                from menpo.shape import PointCloud
+                tgt = np.array([[ff(x) for x in row] for row in recipe["tgt"]])
+                o = build_fresh(dict(recipe, tgt=[[fs(F(x) * 2 + 1) for x in row] for row in recipe["tgt"]]), objs)
+                o.set_target(PointCloud(tgt))
+    except NotImplementedError:
+        pass    # 2-D rotations / 3-D similarities have no vector form
+    return o
+
+
+def build_fresh(recipe, objs):
     import numpy as np
     import menpo.transform as mt
     from menpo.shape import PointCloud
     k = recipe["k"]
     A = lambda rows: np.array([[ff(x) for x in row] for row in rows])
     if k in ("Homogeneous", "Affine", "Similarity"):
-        return getattr(mt, k)(A(recipe["M"]))
+        M = A(recipe["M"])
+        if recipe.get("life") == "int" and np.all(M == np.round(M)):
+            M = M.astype(np.int64)
+        return getattr(mt, k)(M)
     if k == "Rotation":
         return mt.Rotation(A(recipe["R"]))
     if k == "Translation":
@@ -263,11 +355,15 @@ def build(recipe, objs):
         return mt.UniformScale(ff(recipe["s"]), recipe["d"])
     if k == "NonUniformScale":
         return mt.NonUniformScale(np.array([ff(x) for x in recipe["v"]]))
-    if k.startswith("Alignment") or k in ("ThinPlateSplines", "PiecewiseAffine"):
+    if k.startswith("Alignment"):
+        return getattr(mt, k)(PointCloud(A(recipe["src"])), PointCloud(A(recipe["tgt"])), **recipe.get("opts", {}))
+    if k in ("ThinPlateSplines", "PiecewiseAffine"):
         return getattr(mt, k)(PointCloud(A(recipe["src"])), PointCloud(A(recipe["tgt"])))
     if k == "TransformChain":
         return mt.TransformChain([objs[i] for i in recipe["members"]])
     if k == "WithDims":
+        if recipe.get("mask") == "array":
+            return mt.WithDims(np.array(recipe["dims"], dtype=bool))
         return mt.WithDims(list(recipe["dims"]))
     raise ValueError(k)
 
@@ -275,10 +371,9 @@ def build(recipe, objs):
 # ------------------------------------------------------------------------------------------------ the store
 
 class World:
-    """the real objects of one program, indexable like the model's store"""
+    """the real objects of one program, indexable like the model's store (objects of any dimension)"""
 
-    def __init__(self, d):
-        self.d = d
+    def __init__(self, d=None):
         self.objs = []
         self.recipes = []
         self.mag = []     # upper bound on the norm / Lipschitz constant of each object (product of operand norms)
@@ -312,6 +407,8 @@ class World:
                 m *= self.mag[i] if i is not None else 4.0
                 mi *= self.magi[i] if i is not None else 4.0
             return m, mi
+        if is_withdims(o):
+            return 1.0, 1.0
         return 4.0, 4.0
 
     def index_of(self, o):
@@ -321,20 +418,27 @@ class World:
         return None
 
     def cell(self, i):
-        """cell description in the model's vocabulary: ('F', cls, matrix) | ('C', refs) | ('L', i)"""
+        """cell description in the model's vocabulary:
+        ('F', d, cls, matrix) | ('C', refs) | ('D', dims) | ('L', i)"""
         o = self.objs[i]
         if is_chain(o):
             return ("C", [self.index_of(t) for t in o.transforms])
         if is_family(o):
-            return ("F", type(o).__name__, o.h_matrix.copy())
+            return ("F", o.h_matrix.shape[0] - 1, type(o).__name__, o.h_matrix.copy())
+        if is_withdims(o):
+            if is_mask(o.dims):
+                return ("B", [int(bool(x)) for x in o.dims])
+            return ("D", [int(x) for x in o.dims])
         return ("L", i)
 
     def wire_cell(self, i):
         c = self.cell(i)
         if c[0] == "F":
-            return "F %s %s" % (c[1], " ".join(common.fq(x) for x in c[2].ravel()))
+            return "F %d %s %s" % (c[1], c[2], " ".join(common.fq(float(x)) for x in c[3].ravel()))
         if c[0] == "C":
             return "C %d %s" % (len(c[1]), " ".join(str(x) for x in c[1]))
+        if c[0] in ("D", "B"):
+            return "%s %d %s" % (c[0], len(c[1]), " ".join(str(x) for x in c[1]))
         return "L %d" % c[1]
 
 
@@ -348,6 +452,16 @@ def is_chain(o):
     return isinstance(o, TransformChain)
 
 
+def is_withdims(o):
+    from menpo.transform import WithDims
+    return isinstance(o, WithDims)
+
+
+def is_mask(dims):
+    import numpy as np
+    return len(dims) > 0 and all(isinstance(x, (bool, np.bool_)) for x in dims)
+
+
 def kind_of(o):
     return type(o).__name__
 
@@ -358,6 +472,36 @@ def reaches(o, target, depth=0):
     if is_chain(o) and depth < 50:
         return any(reaches(t, target, depth + 1) for t in o.transforms)
     return False
+
+
+def out_dim(o, n, depth=0):
+    """dimension of the image of an n-dimensional point (None: the application raises) - the harness's own
+    dimension calculus, used by the generator and compared with the model's `leavesDim`"""
+    if n is None:
+        return None
+    if is_family(o):
+        return n if o.h_matrix.shape[0] - 1 == n else None
+    if is_withdims(o):
+        if is_mask(o.dims):
+            return sum(1 for x in o.dims if x) if len(o.dims) == n else None
+        return len(o.dims) if all(0 <= int(i) < n for i in o.dims) else None
+    if is_chain(o):
+        if depth > 40:
+            return None
+        for t in o.transforms:
+            n = out_dim(t, n, depth + 1)
+            if n is None:
+                return None
+        return n
+    return 2 if n == 2 else None        # thin-plate splines / piecewise affine built here are 2-D
+
+
+def in_dim(o):
+    """an input dimension the object accepts (2 or 3 preferred), or None"""
+    for n in (2, 3, 1, 4):
+        if out_dim(o, n) is not None:
+            return n
+    return None
 
 
 # ------------------------------------------------------------------------------------------------ oracle parts
@@ -484,31 +628,62 @@ def close_arrays(a, b, mag, extra=1.0):
 # ------------------------------------------------------------------------------------------------ statements
 
 OPS = {"cb": ("compose_before", "before", False), "ca": ("compose_after", "after", False),
-       "cbi": ("compose_before_inplace", "before", True), "cai": ("compose_after_inplace", "after", True)}
+       "cbi": ("compose_before_inplace", "before", True), "cai": ("compose_after_inplace", "after", True),
+       "fv": ("compose_after_from_vector_inplace", "after", True)}
 
 
-def script_of(d, recipes, stmts):
+def stmt_wire(s):
+    if s[0] == "fv":
+        return "fv %d %d %s" % (s[1], len(s[2]), " ".join(s[2]))
+    return "%s %d %d" % (s[0], s[1], s[2])
+
+
+def script_of(recipes, stmts):
     """runnable python reproducing the calls"""
     lines = ["import sys; sys.path[:0] = ['/verif', %r]" % common.REPO,
+             "import numpy as np",
              "from harness import c03",
-             "w = c03.World(%d)" % d]
+             "w = c03.World()"]
     for r in recipes:
         lines.append("w.add_atom(%s)" % json.dumps(r))
     lines.append("o = w.objs")
-    for op, a, b in stmts:
-        if OPS[op][2]:
+    for s in stmts:
+        op, a, b = s[0], s[1], s[2]
+        if op == "fv":
+            lines.append("o[%d].compose_after_from_vector_inplace(np.array(%r))" % (a, [ff(x) for x in b]))
+        elif OPS[op][2]:
             lines.append("o[%d].%s(o[%d])" % (a, OPS[op][0], b))
         else:
             lines.append("o.append(o[%d].%s(o[%d]))" % (a, OPS[op][0], b))
     return "\n".join(lines)
 
 
+def error_kind(e):
+    """the model's vocabulary for what the implementation raised"""
+    if isinstance(e, NotImplementedError):
+        return "notImplemented"
+    if isinstance(e, ValueError):
+        return "rejected" if "compose inplace with" in str(e) else "shape"
+    if isinstance(e, AttributeError):
+        return "noMethod"
+    return "other:" + type(e).__name__
+
+
+def probes_for(X, o):
+    """probe points of the dimension `o` accepts"""
+    n = in_dim(o)
+    return X.get(n if n in X else 2)
+
+
 def exec_stmt(ctx, w, stmt, X, rp, site_prefix="C03"):
     """execute one statement on the real objects and evaluate the oracle; returns the model-vocabulary result
-    ('r', ref) | ('i',) | ('e', kind)"""
+    ('r', ref) | ('i',) | ('e', kind).  `X` maps a dimension to probe points of that dimension."""
     import numpy as np
     from menpo.transform.homogeneous.base import HomogFamilyAlignment
-    op, ia, ib = stmt
+    op, ia = stmt[0], stmt[1]
+    if op == "fv":
+        return exec_fromvector(ctx, w, stmt, X, rp)
+    ib = stmt[2]
     meth, direction, inplace = OPS[op]
     a, b = w.objs[ia], w.objs[ib]
     first, second = (a, b) if direction == "before" else (b, a)
@@ -518,7 +693,9 @@ def exec_stmt(ctx, w, stmt, X, rp, site_prefix="C03"):
     mag = w.mag[ia] * w.mag[ib]
     magi = w.magi[ia] * w.magi[ib]
     # what the law prescribes, evaluated before the call on the unchanged operands
-    exp, Xok, wmin = seq_apply(first, second, X)
+    Xp = probes_for(X, first)
+    exp, Xok, wmin = seq_apply(first, second, Xp)
+    typed = out_dim(second, out_dim(first, in_dim(first))) is not None
     before = [digest(o) for o in w.objs]
     fam_pair = is_family(a) and is_family(b)
     honest_before = ((not is_family(a) or honest(ka, a.h_matrix, 1e-12 * w.mag[ia]))
@@ -526,12 +703,8 @@ def exec_stmt(ctx, w, stmt, X, rp, site_prefix="C03"):
     try:
         res = getattr(a, meth)(b)
         err = None
-    except ValueError:
-        res, err = None, "rejected"
-    except AttributeError:
-        res, err = None, "noMethod"
     except Exception as e:
-        res, err = None, "other:" + type(e).__name__
+        res, err = None, error_kind(e)
     after = [digest(o) for o in w.objs]
     changed = [i for i in range(len(before)) if before[i] != after[i]]
 
@@ -542,7 +715,7 @@ def exec_stmt(ctx, w, stmt, X, rp, site_prefix="C03"):
     def law(obj, site):
         if isinstance(exp, str):
             try:
-                obj.apply(X)
+                obj.apply(Xp)
                 got = "ok"
             except Exception as e:
                 got = type(e).__name__
@@ -557,7 +730,7 @@ def exec_stmt(ctx, w, stmt, X, rp, site_prefix="C03"):
         except Exception as e:
             ctx.fail(site, "composite-raises", "applying the composite raised %s" % type(e).__name__, rp)
             return
-        good = close_arrays(got, exp, mag * (1.0 + float(np.abs(X).max())), 1.0 / min(1.0, wmin) ** 2)
+        good = close_arrays(got, exp, mag * (1.0 + float(np.abs(Xp).max())), 1.0 / min(1.0, wmin) ** 2)
         if not good:
             j = int(np.argmax(np.abs(got - exp).max(axis=1))) if got.shape == exp.shape else 0
             ctx.fail(site, "map-differs" + sfx,
@@ -565,8 +738,16 @@ def exec_stmt(ctx, w, stmt, X, rp, site_prefix="C03"):
                          sig, Xok[j].tolist(), got[j].tolist(), exp[j].tolist()),
                      dict(rp, probe=Xok[j].tolist(), observed=got[j].tolist(), required=exp[j].tolist()))
 
+    ctx.count("typed" if typed else "ill-typed")
     if not inplace:
         if err is not None:
+            if isinstance(exp, str) and not typed:
+                # b(a(x)) is undefined on every point (dimensions do not fit): outside the quantifier; the native
+                # composition refuses where a chain would fail on application.  Nothing may have changed.
+                ctx.count("compose-refused:dimension-mismatch")
+                ctx.check(not changed, "C03/compose.operands-intact", "object-changed",
+                          "%s raised (%s) and changed existing object(s) %r" % (sig, err, changed), dict(rp, changed=changed))
+                return ("e", err)
             ctx.fail("C03/compose.raises", err, "%s raised (%s): a non-in-place composition must succeed" % (sig, err), rp)
             return ("e", err)
         ctx.check(not changed, "C03/compose.operands-intact", "object-changed",
@@ -600,9 +781,12 @@ def exec_stmt(ctx, w, stmt, X, rp, site_prefix="C03"):
         idx = w.add(res, mag=mag, magi=magi)
         return ("r", idx)
     # in-place
-    if err == "rejected" or err == "noMethod":
+    if err in ("rejected", "noMethod", "shape"):
         ctx.check(not changed, "C03/inplace.refused-but-changed", "object-changed",
                   "%s was refused (%s) but changed object(s) %r" % (sig, err, changed), dict(rp, changed=changed))
+        if err == "shape":
+            ctx.check(not typed, "C03/inplace.raises", "shape", "%s raised a shape error on operands whose "
+                      "dimensions fit" % sig, rp)
         return ("e", err)
     if err is not None:
         ctx.fail("C03/inplace.raises", err, "%s raised %s" % (sig, err), rp)
@@ -621,17 +805,93 @@ def exec_stmt(ctx, w, stmt, X, rp, site_prefix="C03"):
     return ("i",)
 
 
+def exec_fromvector(ctx, w, stmt, X, rp):
+    """a.compose_after_from_vector_inplace(v): afterwards a maps x to a_orig(a_orig.from_vector(v)(x)), a keeps its
+    class, stays honest when from_vector(v) is honest, nothing else (v included) changes"""
+    import numpy as np
+    _, ia, vs = stmt
+    a = w.objs[ia]
+    ka = kind_of(a)
+    v = np.array([ff(x) for x in vs])
+    v0 = v.copy()
+    rp = dict(rp, failing_statement=["fv", ia, list(vs)], operand_kinds=[ka, "vector"])
+    sig = "C03/fv(%s,%d params)" % (ka, len(vs))
+    before = [digest(o) for o in w.objs]
+    exp = Xp = operand = None
+    honest_before = is_family(a) and honest(ka, a.h_matrix, 1e-12 * w.mag[ia])
+    if is_family(a):
+        try:
+            operand = a.from_vector(v.copy())
+            Xp = probes_for(X, a)
+            exp, Xok, wmin = seq_apply(operand, a, Xp)
+        except Exception:
+            operand = None
+    try:
+        res = a.compose_after_from_vector_inplace(v)
+        err = None
+    except Exception as e:
+        res, err = None, error_kind(e)
+    after = [digest(o) for o in w.objs]
+    changed = [i for i in range(len(before)) if before[i] != after[i]]
+    ctx.check(np.array_equal(v, v0), "C03/fromvector.operand-intact", "vector-changed", "%s changed the vector" % sig, rp)
+    if err is not None:
+        ctx.check(not changed, "C03/inplace.refused-but-changed", "object-changed",
+                  "%s was refused (%s) but changed object(s) %r" % (sig, err, changed), dict(rp, changed=changed))
+        try:
+            right_len = is_family(a) and len(vs) == int(a.n_parameters)
+        except Exception:
+            right_len = False
+        # a vector of the documented length that from_vector turns into an object of the receiver's dimension
+        # must be accepted (the operand is of the receiver's own class)
+        ctx.check(not (operand is not None and right_len), "C03/fromvector.raises", err,
+                  "%s raised %s although from_vector accepts the vector" % (sig, err), rp)
+        return ("e", err)
+    other = [i for i in changed if i != ia]
+    ctx.check(not other, "C03/inplace.operand-intact", "object-changed",
+              "%s changed object(s) %r besides the receiver %d" % (sig, other, ia), dict(rp, changed=other))
+    ctx.check(kind_of(w.objs[ia]) == ka, "C03/inplace.class", "class-changed", "%s changed the receiver's class" % sig, rp)
+    if operand is None:
+        ctx.fail("C03/fromvector.accepted", "no-operand", "%s succeeded although from_vector refuses the vector" % sig, rp)
+        return ("i",)
+    omag = max(1.0, float(np.abs(operand.h_matrix).sum(axis=1).max()))
+    try:
+        omagi = max(1.0, float(np.abs(np.linalg.inv(operand.h_matrix)).sum(axis=1).max()))
+    except Exception:
+        omagi = float("inf")
+    mag, magi = w.mag[ia] * omag, w.magi[ia] * omagi
+    if isinstance(exp, str):
+        ctx.fail("C03/inplace.law", "sequential-raises", "%s: applying from_vector(v) then the receiver raises %s" % (sig, exp), rp)
+    elif exp is not None:
+        try:
+            got = np.asarray(a.apply(Xok))
+            good = close_arrays(got, exp, mag * (1.0 + float(np.abs(Xp).max())), 1.0 / min(1.0, wmin) ** 2)
+            if not good:
+                j = int(np.argmax(np.abs(got - exp).max(axis=1))) if got.shape == exp.shape else 0
+                ctx.fail("C03/inplace.law", "map-differs", "%s: receiver maps %s to %s, the law prescribes %s" % (
+                    sig, Xok[j].tolist(), got[j].tolist(), exp[j].tolist()),
+                    dict(rp, probe=Xok[j].tolist(), observed=got[j].tolist(), required=exp[j].tolist()))
+        except Exception as e:
+            ctx.fail("C03/inplace.law", "composite-raises", "applying the receiver raised %s" % type(e).__name__, rp)
+    if honest_before and honest(ka, operand.h_matrix, 1e-12 * omag):
+        ctx.check(honest(ka, a.h_matrix, 1e-12 * mag), "C03/inplace.honest", "receiver=%s" % BASE.get(ka, ka),
+                  "%s leaves a %s whose matrix is not one: %s" % (sig, ka, a.h_matrix.tolist()),
+                  dict(rp, receiver_class=ka, receiver_matrix=a.h_matrix.tolist()))
+    w.mag[ia], w.magi[ia] = mag, magi
+    return ("i",)
+
+
 # ------------------------------------------------------------------------------------------------ model side
 
-def parse_cell(tokens, d):
-    """tokens of one model cell -> ('F', cls, [[Fraction]]) | ('C', refs) | ('L', k)"""
+def parse_cell(tokens):
+    """tokens of one model cell -> ('F', d, cls, [[Fraction]]) | ('C', refs) | ('D', dims) | ('L', k)"""
     if tokens[0] == "F":
+        d = int(tokens[1])
         n = d + 1
-        vals = [Fraction(x) for x in tokens[2:2 + n * n]]
-        return ("F", tokens[1], [vals[i * n:(i + 1) * n] for i in range(n)])
-    if tokens[0] == "C":
+        vals = [Fraction(x) for x in tokens[3:3 + n * n]]
+        return ("F", d, tokens[2], [vals[i * n:(i + 1) * n] for i in range(n)])
+    if tokens[0] in ("C", "D", "B"):
         k = int(tokens[1])
-        return ("C", [int(x) for x in tokens[2:2 + k]])
+        return (tokens[0], [int(x) for x in tokens[2:2 + k]])
     return ("L", int(tokens[1]))
 
 
@@ -640,27 +900,27 @@ def cells_agree(impl, model, mag):
     if impl[0] != model[0]:
         return False
     if impl[0] == "F":
-        if impl[1] != model[1]:
+        if impl[1] != model[1] or impl[2] != model[2]:
             return False
-        m = np.array([[float(x) for x in row] for row in model[2]])
-        return close_arrays(impl[2], m, mag)
-    if impl[0] == "C":
+        m = np.array([[float(x) for x in row] for row in model[3]])
+        return close_arrays(impl[3], m, mag)
+    if impl[0] in ("C", "D", "B"):
         return list(impl[1]) == list(model[1])
     return True
 
 
 def fmt_cell(c):
     if c[0] == "F":
-        return "F %s %s" % (c[1], [[float(x) for x in row] for row in (c[2].tolist() if hasattr(c[2], "tolist") else c[2])])
+        return "F %d %s %s" % (c[1], c[2], [[float(x) for x in row] for row in (c[3].tolist() if hasattr(c[3], "tolist") else c[3])])
     return "%s %s" % (c[0], c[1])
 
 
-def model_line(cid, d, table_wire, init_cells, stmts):
-    return "%s prog %d %s S %d %s P %d %s" % (cid, d, table_wire, len(init_cells), " ".join(init_cells),
-                                               len(stmts), " ".join("%s %d %d" % s for s in stmts))
+def model_line(cid, table_wire, init_cells, stmts):
+    return "%s prog %s S %d %s P %d %s" % (cid, table_wire, len(init_cells), " ".join(init_cells),
+                                           len(stmts), " ".join(stmt_wire(s) for s in stmts))
 
 
-def compare_program(ctx, d, reply, impl_results, impl_final, mags, rp, first_only=True):
+def compare_program(ctx, reply, impl_results, impl_final, mags, rp, first_only=True):
     """diff one driver reply against the implementation's observations"""
     if not reply.startswith("ok"):
         ctx.mismatch("prog", "driver could not run the program: %s" % reply[:120], rp)
@@ -680,7 +940,7 @@ def compare_program(ctx, d, reply, impl_results, impl_final, mags, rp, first_onl
         else:
             same = ir[0] == "i"
         if not same:
-            ctx.mismatch("prog.statement", "statement %d: model %r vs implementation %r" % (k, " ".join(tk[:3]), ir),
+            ctx.mismatch("prog.statement", "statement %d: model %r vs implementation %r" % (k, " ".join(tk[:4]), ir),
                          dict(rp, failing_statement=k))
             good = False
             if first_only:
@@ -690,7 +950,7 @@ def compare_program(ctx, d, reply, impl_results, impl_final, mags, rp, first_onl
         ctx.mismatch("prog.store", "model store has %d cells, implementation %d" % (len(mcells), len(impl_final)), rp)
         return False
     for i, (mc, ic) in enumerate(zip(mcells, impl_final)):
-        pm = parse_cell(mc, d)
+        pm = parse_cell(mc)
         if not cells_agree(ic, pm, mags[i]):
             ctx.mismatch("prog.store", "object %d: model %s vs implementation %s" % (i, fmt_cell(pm)[:300], fmt_cell(ic)[:300]),
                          dict(rp, object=i))
@@ -706,66 +966,180 @@ def kinds_for(d):
     return FAMILY + (OTHERS2 if d == 2 else OTHERS3)
 
 
-def run_program(ctx, d, recipes, stmts, cid, table_wire, pending, what):
+def all_leaves_exact(o, depth=0):
+    """is the object built from affine-family members and WithDims only (then the model applies it exactly)?"""
+    from menpo.transform import Affine
+    if is_chain(o):
+        return depth < 40 and all(all_leaves_exact(t, depth + 1) for t in o.transforms)
+    return is_withdims(o) or (is_family(o) and isinstance(o, Affine))
+
+
+def queue_apply_checks(ctx, w, cid, table_wire, rp, aux, limit=2):
+    """after a program: the image of one probe point under (up to `limit`) chains / slicers of the final store,
+    computed by the model from the final store (`applyc`), and the model's dimension calculus (`dim`), against the
+    real apply"""
+    import numpy as np
+    cands = [i for i, o in enumerate(w.objs) if (is_chain(o) or is_withdims(o)) and all_leaves_exact(o)
+             and not any(reaches(t, o) for t in getattr(o, "transforms", []))]
+    ctx.rng.shuffle(cands)
+    cells = " ".join(w.wire_cell(i) for i in range(len(w.objs)))
+    for i in cands[:limit]:
+        o = w.objs[i]
+        n = in_dim(o) if (ctx.rng.random() < 0.8 and in_dim(o)) else ctx.rng.choice([2, 3])
+        x = np.array([[float(dy(ctx.rng, 12, 2)) for _ in range(n)]])
+        try:
+            y = np.asarray(o.apply(x))[0]
+            got = ("ok", y)
+        except Exception as e:
+            got = ("raises", type(e).__name__)
+        fuel = len(w.objs) + 2
+        aid = "%s_ap%d" % (cid, i)
+        aux["lines"].append("%s applyc %d %d %d %s %s S %d %s" % (
+            aid, fuel, i, n, " ".join(common.fq(v) for v in x[0]), table_wire, len(w.objs), cells))
+        aux["lines"].append("%s_dim dim %d %d %d S %d %s" % (aid, fuel, i, n, len(w.objs), cells))
+        aux["apply"][aid] = (got, out_dim(o, n), w.mag[i] * (1.0 + float(np.abs(x).max())),
+                             dict(rp, object=i, probe=x[0].tolist()))
+        ctx.count("chain-apply:%s" % ("defined" if got[0] == "ok" else "undefined"))
+
+
+def run_program(ctx, recipes, stmts, cid, table_wire, pending, what, aux=None):
     """build the atoms, run the statements on the real objects with the oracle, queue the model line"""
-    w = World(d)
+    w = World()
     for r in recipes:
         w.add_atom(r)
     for i, o in enumerate(w.objs):
-        if is_family(o) and not honest(kind_of(o), o.h_matrix):
+        if is_family(o) and not honest(kind_of(o), o.h_matrix, 1e-12 * w.mag[i]):
             ctx.count("generator:dishonest-atom-skipped")
             return None
     init_cells = [w.wire_cell(i) for i in range(len(w.objs))]
-    X = probe_points(ctx.rng, d)
-    rp = {"d": d, "atoms": recipes, "statements": [list(s) for s in stmts], "what": what,
-          "python": script_of(d, recipes, stmts)}
+    X = {n: probe_points(ctx.rng, n) for n in (1, 2, 3, 4)}
+    rp = {"atoms": recipes, "statements": [list(s) for s in stmts], "what": what,
+          "python": script_of(recipes, stmts)}
     results = []
     for k, s in enumerate(stmts):
         results.append(exec_stmt(ctx, w, s, X, dict(rp, minimal_statements=[list(x) for x in stmts[:k + 1]])))
     final = [w.cell(i) for i in range(len(w.objs))]
-    pending.append((cid, d, model_line(cid, d, table_wire, init_cells, stmts), results, final, list(w.mag), rp))
+    pending.append((cid, model_line(cid, table_wire, init_cells, stmts), results, final, list(w.mag), rp))
+    if aux is not None:
+        queue_apply_checks(ctx, w, cid, table_wire, rp, aux)
     return w
 
 
+def gen_vector(rng, o, wrong=False, lenient=False):
+    """parameter vector (exact rational strings) for `o.compose_after_from_vector_inplace`: of the documented length
+    and describing an honest, invertible member of the class; `wrong`: of another length (for Translation and
+    NonUniformScale, whose code lets numpy broadcast / cycle such a vector, only when `lenient`: the direct
+    from_vector comparison, which also accepts a refusal - a length check there would be a fix of C05's, not a
+    change of composition)"""
+    d = o.h_matrix.shape[0] - 1
+    base = BASE.get(kind_of(o), kind_of(o))
+    if base == "Homogeneous":
+        while True:
+            bottom = [Fraction(rng.randint(-1, 1), 16) for _ in range(d)] + [Fraction(1)]
+            m = hmat(lin_matrix(rng, d), [dy(rng, 4, 1) for _ in range(d)], bottom)
+            if abs(det_exact(m)) >= Fraction(1, 4):
+                break
+        v = [x for row in m for x in row]
+    elif base == "Affine":
+        m = hmat(lin_matrix(rng, d), [dy(rng, 4, 1) for _ in range(d)])
+        v = [m[i][j] - int(i == j) for j in range(d + 1) for i in range(d)]
+    elif base == "Similarity":
+        if d == 2:
+            R = rot_matrix(rng, 2)
+            s = rng.choice([Fraction(1, 2), Fraction(3, 2), Fraction(2), Fraction(-1, 2)])
+            v = [s * R[0][0] - 1, s * R[1][0], dy(rng, 4, 1), dy(rng, 4, 1)]
+        else:
+            v = [Fraction(0)] * 7          # 3-D similarities are not vectorisable
+    elif base == "Rotation":
+        if d == 3:
+            while True:
+                v = [Fraction(rng.randint(-3, 3), rng.choice([1, 2])) for _ in range(4)]
+                if any(v):
+                    break
+            if rng.random() < 0.05:
+                v = [Fraction(0)] * 4      # the zero quaternion leaves the rotation as it is
+        else:
+            v = [Fraction(1)]              # 2-D rotations are not vectorisable
+    elif base == "Translation":
+        v = [dy(rng, 8, 1) for _ in range(d)]
+    elif base == "UniformScale":
+        v = [rng.choice([Fraction(1, 2), Fraction(3, 2), Fraction(2), Fraction(-2), Fraction(3, 4)])]
+    else:
+        vals = [Fraction(1, 2), Fraction(3, 2), Fraction(2), Fraction(-1), Fraction(3, 4), Fraction(5, 4)]
+        rng.shuffle(vals)
+        v = vals[:d]
+    if (wrong and not (base == "Rotation" and d == 2) and not (base == "Similarity" and d == 3)
+            and (lenient or base not in ("Translation", "NonUniformScale"))):
+        # another length: refused by most classes; a Translation broadcasts one value and refuses the rest,
+        # np.fill_diagonal cycles / truncates the factors of a NonUniformScale
+        v = v + [Fraction(3, 2)] if rng.random() < 0.5 or len(v) == 1 else v[:-1]
+    return [fs(x) for x in v]
+
+
 def allowed_stmt(w, op, ia, ib):
-    """generator side conditions (documented in INFO): magnitude cap; no chain that would contain itself"""
+    """generator side conditions (documented in INFO): magnitude cap; no chain that would contain itself (the
+    self-containing case has its own battery)"""
     a, b = w.objs[ia], w.objs[ib]
     if w.mag[ia] * w.mag[ib] > MAG_CAP or w.magi[ia] * w.magi[ib] > MAG_CAP:
         return False
-    if OPS[op][2]:
-        if is_chain(a) and reaches(b, a):
-            return False
-        if is_family(a) and is_family(b) and ia == ib:
-            return True
+    if OPS[op][2] and is_chain(a) and reaches(b, a):
+        return False
     return True
 
 
-def gen_program(ctx, d, n_atoms, n_stmts, inplace_bias=0.4):
+def typed_pair(w, op, ia, ib):
+    a, b = w.objs[ia], w.objs[ib]
+    first, second = (a, b) if OPS[op][1] == "before" else (b, a)
+    return out_dim(second, out_dim(first, in_dim(first))) is not None
+
+
+def gen_program(ctx, d, n_atoms, n_stmts, inplace_bias=0.4, mixed=False, fv_bias=0.08):
     """random store + statements (statements are chosen while executing a scratch copy, so that the side
-    conditions can look at the objects)"""
+    conditions can look at the objects).  `mixed`: atoms of both dimensions and dimension-changing WithDims; then
+    nine of ten statements are chosen among the well-typed ones."""
     rng = ctx.rng
-    kinds = kinds_for(d)
     recipes = []
     for i in range(n_atoms):
+        di = d if not mixed else rng.choice([2, 3])
+        kinds = kinds_for(di)
         k = rng.choice(kinds if (i > 0) else FAMILY)
+        if mixed and i > 0 and rng.random() < 0.3:
+            k = "WithDims"
         if k == "TransformChain" and i == 0:
             k = "Affine"
-        recipes.append(gen_atom(rng, k, d, n_existing=i))
+        recipes.append(with_life(rng, gen_atom(rng, k, di, n_existing=i)))
     # scratch world to choose admissible statements
-    w = World(d)
+    w = World()
     for r in recipes:
         w.add_atom(r)
     stmts = []
     import warnings
     tries = 0
-    while len(stmts) < n_stmts and tries < 60:
+    while len(stmts) < n_stmts and tries < 120:
         tries += 1
-        op = rng.choice(["cbi", "cai"]) if rng.random() < inplace_bias else rng.choice(["cb", "ca"])
-        ia, ib = rng.randrange(len(w.objs)), rng.randrange(len(w.objs))
+        ia = rng.randrange(len(w.objs))
         a = w.objs[ia]
+        if is_family(a) and rng.random() < fv_bias:
+            v = gen_vector(rng, a, wrong=rng.random() < 0.15)
+            stmts.append(("fv", ia, v))
+            try:
+                with warnings.catch_warnings():
+                    warnings.simplefilter("ignore")
+                    import numpy as np
+                    opnd = a.from_vector(np.array([ff(x) for x in v]))
+                    a.compose_after_from_vector_inplace(np.array([ff(x) for x in v]))
+                    m, mi = w.atom_mag(opnd)
+                    w.mag[ia], w.magi[ia] = w.mag[ia] * m, w.magi[ia] * mi
+            except Exception:
+                pass
+            continue
+        op = rng.choice(["cbi", "cai"]) if rng.random() < inplace_bias else rng.choice(["cb", "ca"])
+        ib = rng.randrange(len(w.objs))
         if OPS[op][2] and not (is_family(a) or is_chain(a)) and rng.random() < 0.8:
             continue
         if not allowed_stmt(w, op, ia, ib):
+            continue
+        if mixed and not typed_pair(w, op, ia, ib) and rng.random() < 0.9:
             continue
         stmts.append((op, ia, ib))
         try:
@@ -781,7 +1155,7 @@ def gen_program(ctx, d, n_atoms, n_stmts, inplace_bias=0.4):
     return recipes, stmts
 
 
-def pair_battery(ctx, d, table_wire, pending, tag):
+def pair_battery(ctx, d, table_wire, pending, tag, aux=None):
     """all ordered pairs of kinds, both directions, non-in-place and in-place, fresh atoms per statement"""
     rng = ctx.rng
     kinds = kinds_for(d)
@@ -798,16 +1172,70 @@ def pair_battery(ctx, d, table_wire, pending, tag):
                         recipes.append(gen_atom(rng, rng.choice(FAMILY[:7]), d))
                         recipes.append(gen_atom(rng, "TransformChain", d, chainable=[len(recipes) - 1]))
                     else:
-                        recipes.append(gen_atom(rng, k, d))
+                        recipes.append(with_life(rng, gen_atom(rng, k, d), 0.2))
                 ia = 1 if ka == "TransformChain" else 0
                 ib = len(recipes) - 1
                 cid = "%s%d_%d" % (tag, d, n)
                 n += 1
-                run_program(ctx, d, recipes, [(op, ia, ib)], cid, table_wire, pending, "pair battery")
+                run_program(ctx, recipes, [(op, ia, ib)], cid, table_wire, pending, "pair battery", aux)
                 ctx.count("pair:%s" % op)
                 ctx.count("dim:%d" % d)
                 ctx.case(("pair", d, op, ka, kb, json.dumps(recipes, sort_keys=True)), nontrivial=True,
                          sample={"d": d, "call": "%s.%s(%s)" % (ka, OPS[op][0], kb)})
+
+
+def cross_dimension_battery(ctx, table_wire, pending, tag, aux):
+    """every family class in 3-D with every family class in 2-D: directly (ill-typed: np.dot refuses, in-place and
+    not, nothing changes) and through a dimension-changing WithDims (a chain typed 3 -> 2); and the reverse through an
+    embedding WithDims (2 -> 3)"""
+    rng = ctx.rng
+    n = 0
+    for ka in FAMILY:
+        for kb in rng.sample(FAMILY, 4):
+            up = rng.random() < 0.3
+            da, db = (2, 3) if up else (3, 2)
+            dims = rng.choice([[0, 1, 0], [1, 1, 0], [1, 0, 1]]) if up else rng.choice([[0, 1], [0, 2], [2, 1], [1, 0]])
+            recipes = [with_life(rng, gen_atom(rng, ka, da), 0.2), {"k": "WithDims", "d": da, "dims": dims},
+                       with_life(rng, gen_atom(rng, kb, db), 0.2)]
+            op = rng.choice(["cb", "ca"])
+            opi = rng.choice(["cbi", "cai"])
+            if op == "cb":
+                stmts = [("cb", 0, 2), (opi, 0, 2), ("cb", 0, 1), ("cb", 3, 2), ("ca", 2, 3), ("cbi", 3, 2)]
+            else:
+                stmts = [("ca", 2, 0), (opi, 2, 0), ("ca", 1, 0), ("ca", 2, 3), ("cb", 3, 2), ("cai", 3, 0)]
+            cid = "%s_%d" % (tag, n)
+            n += 1
+            w = run_program(ctx, recipes, stmts, cid, table_wire, pending, "cross-dimension battery", aux)
+            if w is None:
+                continue
+            for st in stmts:
+                ctx.count("cross:%s" % st[0])
+                ctx.case(("cross", st, ka, kb, json.dumps(recipes, sort_keys=True)), nontrivial=True,
+                         sample={"call": "%s(%d-D) %s WithDims%r %s(%d-D)" % (ka, da, st[0], dims, kb, db)})
+
+
+def fromvector_battery(ctx, d, table_wire, pending, tag):
+    """compose_after_from_vector_inplace on every family class: a proper vector, then a second proper vector, then a
+    vector of the wrong length, then non-in-place calls on the receiver"""
+    rng = ctx.rng
+    n = 0
+    for ka in FAMILY:
+        kc = rng.choice(FAMILY)
+        recipes = [with_life(rng, gen_atom(rng, ka, d)), gen_atom(rng, kc, d)]
+        a = build(recipes[0], [])
+        stmts = [("fv", 0, gen_vector(rng, a)), ("fv", 0, gen_vector(rng, a)), ("fv", 0, gen_vector(rng, a, wrong=True)),
+                 ("cb", 0, 1), ("ca", 0, 1), ("fv", 1, gen_vector(rng, build(recipes[1], [])))]
+        cid = "%s%d_%d" % (tag, d, n)
+        n += 1
+        w = run_program(ctx, recipes, stmts, cid, table_wire, pending, "from-vector battery")
+        if w is None:
+            continue
+        for st in stmts:
+            ctx.count("fromvector:%s" % st[0])
+            ctx.count("dim:%d" % d)
+            ctx.case(("fromvector", d, st[0], ka, kc, json.dumps(st[2]) if st[0] == "fv" else st[2],
+                      json.dumps(recipes, sort_keys=True)), nontrivial=True,
+                     sample={"d": d, "call": "%s.compose_after_from_vector_inplace" % ka})
 
 
 def sequel_battery(ctx, d, table_wire, pending, tag):
@@ -824,7 +1252,7 @@ def sequel_battery(ctx, d, table_wire, pending, tag):
             stmts = [(op, 0, 1), ("cb", 0, 2), ("ca", 0, 2), ("cb", 2, 0), ("ca", 3, 0), ("cb", 0, 3)]
             cid = "%s%d_%d" % (tag, d, n)
             n += 1
-            w = run_program(ctx, d, recipes, stmts, cid, table_wire, pending, "in-place call, then non-in-place calls")
+            w = run_program(ctx, recipes, stmts, cid, table_wire, pending, "in-place call, then non-in-place calls")
             if w is None:
                 continue
             for st in stmts:
@@ -833,29 +1261,111 @@ def sequel_battery(ctx, d, table_wire, pending, tag):
                 ctx.case(("sequel", d, st, ka, kb, kc, json.dumps(recipes, sort_keys=True)), nontrivial=True)
 
 
-def random_programs(ctx, n, wires, pending, tag, long=False, inplace_bias=0.4):
+def nested_chain_battery(ctx, table_wire, pending, tag, aux):
+    """chains of chains: composing with a chain operand makes it ONE member (no flattening), later in-place edits of
+    the nested chain and of its members are seen through every chain that holds it"""
+    rng = ctx.rng
+    for n in range(ctx.n(12, 80)):
+        d = rng.choice([2, 3])
+        ks = [rng.choice(FAMILY[1:7]) for _ in range(4)]
+        recipes = [gen_atom(rng, k, d) for k in ks]
+        recipes.append({"k": "TransformChain", "d": d, "members": [0, 1]})        # 4
+        recipes.append({"k": "TransformChain", "d": d, "members": [4, 2]})        # 5 holds chain 4
+        op1, op2 = rng.choice(["cb", "ca"]), rng.choice(["cbi", "cai"])
+        stmts = [(op1, 5, 4),            # 6: chain [4, 2, 4] / [4, 4, 2]: the operand chain is one member
+                 (op1, 3, 5),            # 7: family with chain -> [3, 5] / [5, 3]
+                 (op2, 4, 3),            # edit the innermost chain in place: seen through 5, 6, 7
+                 (rng.choice(["cbi", "cai"]), 0, 0),     # a member composed with itself in place: seen through all
+                 (op2, 6, 7),            # chain gains a chain that holds chains
+                 ("cb", 6, 6)]           # non-in-place with itself: fine, a new chain [.., 6]
+        cid = "%s_%d" % (tag, n)
+        w = run_program(ctx, recipes, stmts, cid, table_wire, pending, "nested chains", aux)
+        if w is None:
+            continue
+        for st in stmts:
+            ctx.count("nested:%s" % st[0])
+            ctx.case(("nested", d, st, json.dumps(recipes, sort_keys=True)), nontrivial=True,
+                     sample={"d": d, "nested": "chain of chains, %s then %s" % (op1, op2)})
+
+
+def self_containing_battery(ctx, table_wire, aux):
+    """in-place composition of a chain with an operand that contains the chain (itself, or a chain holding it): the
+    call is accepted (the code appends to a list); afterwards the chain denotes nothing - apply recurses until
+    RecursionError - which is exactly what the model says (`inplace_chain_exact`): no denotation at any fuel, the store
+    is no longer acyclic.  The control (operand does not contain the receiver) keeps denoting."""
+    import numpy as np
+    rng = ctx.rng
+    for n in range(ctx.n(10, 60)):
+        d = rng.choice([2, 3])
+        t = gen_atom(rng, "Translation", d)
+        u = gen_atom(rng, rng.choice(["Translation", "Rotation"]), d)
+        variant = rng.choice(["self", "via-holder", "control"])
+        op = rng.choice(["cbi", "cai"])
+        recipes = [t, u, {"k": "TransformChain", "d": d, "members": [0]},      # 2 = the receiver
+                   {"k": "TransformChain", "d": d, "members": [1, 2]}]          # 3 holds the receiver
+        ib = {"self": 2, "via-holder": 3, "control": 1}[variant]
+        w = World()
+        for r in recipes:
+            w.add_atom(r)
+        init = " ".join(w.wire_cell(i) for i in range(4))
+        rp = {"atoms": recipes, "statements": [[op, 2, ib]], "what": "self-containing chain (%s)" % variant,
+              "python": script_of(recipes, [(op, 2, ib)]) + "\no[2].apply(np.zeros((1, %d)))" % d}
+        before = [digest(o) for o in w.objs]
+        try:
+            getattr(w.objs[2], OPS[op][0])(w.objs[ib])
+            err = None
+        except Exception as e:
+            err = error_kind(e)
+        after = [digest(o) for o in w.objs]
+        ctx.check(err is None, "C03/inplace.raises", str(err), "in-place composition on a chain raised %s" % err, rp)
+        ctx.check([i for i in range(4) if before[i] != after[i]] in ([2], []), "C03/inplace.operand-intact",
+                  "object-changed", "in-place composition on a chain changed another object", rp)
+        observed = {}
+        for i in (2, 3):
+            try:
+                w.objs[i].apply(np.zeros((1, d)))
+                observed[i] = "ok"
+            except RecursionError:
+                observed[i] = "recursion"
+            except Exception as e:
+                observed[i] = type(e).__name__
+        cid = "sc%d" % n
+        final = " ".join(w.wire_cell(i) for i in range(4))
+        aux["lines"].append("%s prog %s S 4 %s P 1 %s" % (cid, table_wire, init, stmt_wire((op, 2, ib))))
+        for i in (2, 3):
+            aux["lines"].append("%s_f%d flat 40 %d S 4 %s" % (cid, i, i, final))
+        aux["selfc"][cid] = (variant, observed, [w.cell(i) for i in range(4)], rp)
+        ctx.case(("selfc", d, variant, op, json.dumps(recipes, sort_keys=True)), nontrivial=True,
+                 sample={"d": d, "self-containing": variant})
+        ctx.count("selfc:" + variant)
+
+
+def random_programs(ctx, n, wires, pending, tag, long=False, inplace_bias=0.4, aux=None):
     rng = ctx.rng
     for k in range(n):
         d = 2 if rng.random() < 0.6 else 3
+        mixed = rng.random() < 0.3
         n_atoms = rng.randint(3, 7)
         n_stmts = rng.randint(2, 16 if long else 8)
-        recipes, stmts = gen_program(ctx, d, n_atoms, n_stmts, inplace_bias)
+        recipes, stmts = gen_program(ctx, d, n_atoms, n_stmts, inplace_bias, mixed=mixed)
         if not stmts:
             continue
         cid = "%s%d" % (tag, k)
-        w = run_program(ctx, d, recipes, stmts, cid, wires[d], pending, "random program")
+        w = run_program(ctx, recipes, stmts, cid, wires[d], pending, "random program" + (" (mixed dimensions)" if mixed else ""), aux)
         if w is None:
             continue
-        for (op, ia, ib) in stmts:
+        for s in stmts:
+            op, ia = s[0], s[1]
             ctx.count("prog:%s" % op)
-            ctx.count("dim:%d" % d)
-            ctx.case(("prog", d, op, kind_of(w.objs[ia]), kind_of(w.objs[ib]), cid, json.dumps(recipes, sort_keys=True)),
+            ctx.count("dim:%s" % ("mixed" if mixed else d))
+            kb = "vector" if op == "fv" else kind_of(w.objs[s[2]])
+            ctx.case(("prog", d, op, kind_of(w.objs[ia]), kb, cid, json.dumps(recipes, sort_keys=True)),
                      nontrivial=True,
-                     sample={"d": d, "statements": len(stmts), "first": "%s %d %d" % stmts[0]})
+                     sample={"d": "mixed" if mixed else d, "statements": len(stmts), "first": stmt_wire(stmts[0])})
         ctx.count("programs")
 
 
-# ------------------------------------------------------------------------------------------------ apply / decompose
+# ------------------------------------------------------------------------------------------------ apply / from_vector / decompose
 
 def apply_cases(ctx, n, wires, lines, expect):
     """`applyHT` of the model (method resolution between Affine._apply and Homogeneous._apply) vs the real apply"""
@@ -864,7 +1374,7 @@ def apply_cases(ctx, n, wires, lines, expect):
     for k in range(n):
         d = rng.choice([2, 3])
         kind = rng.choice(FAMILY)
-        r = gen_atom(rng, kind, d)
+        r = with_life(rng, gen_atom(rng, kind, d))
         o = build(r, [])
         x = np.array([[float(dy(rng, 12, 2)) for _ in range(d)]])
         if is_projective(o):
@@ -874,19 +1384,58 @@ def apply_cases(ctx, n, wires, lines, expect):
         y = o.apply(x)[0]
         cid = "ap%d" % k
         lines.append("%s apply %d %s %s %s %s" % (cid, d, wires[d], kind,
-                                                 " ".join(common.fq(v) for v in o.h_matrix.ravel()),
+                                                 " ".join(common.fq(float(v)) for v in o.h_matrix.ravel()),
                                                  " ".join(common.fq(v) for v in x[0])))
         expect[cid] = (y, float(np.abs(o.h_matrix).sum()), {"d": d, "atom": r, "x": x[0].tolist(), "apply": y.tolist()})
         ctx.case(("apply", d, kind, json.dumps(r, sort_keys=True)), nontrivial=True)
         ctx.count("apply:" + kind)
 
 
+def fromvec_cases(ctx, n, lines, expect):
+    """the matrix `self.from_vector(v)` holds (operand of compose_after_from_vector_inplace) and the error kinds for
+    vectors of another length, model vs implementation"""
+    import numpy as np
+    rng = ctx.rng
+    for k in range(n):
+        d = rng.choice([2, 3])
+        kind = rng.choice(FAMILY)
+        r = gen_atom(rng, kind, d)
+        o = build(r, [])
+        wrong = rng.random() < 0.25
+        vs = gen_vector(rng, o, wrong=wrong, lenient=True)
+        v = np.array([ff(x) for x in vs])
+        h0 = o.h_matrix.copy()
+        try:
+            m = np.asarray(o.from_vector(v).h_matrix, dtype=float)
+            got = ("ok", m)
+        except Exception as e:
+            got = ("e", error_kind(e))
+        rp = {"d": d, "atom": r, "vector": vs,
+              "python": "import sys; sys.path[:0]=['/verif', %r]\nimport numpy as np\nfrom harness import c03\n"
+              "t = c03.build(%s, [])\nt.from_vector(np.array(%r))" % (common.REPO, json.dumps(r), [ff(x) for x in vs])}
+        ctx.check(np.array_equal(o.h_matrix, h0), "C03/fromvector.operand-intact", "receiver-changed",
+                  "from_vector changed the %s it was called on" % kind, rp)
+        if got[0] == "ok" and got[1].shape != h0.shape:
+            # an Affine / Similarity given the parameter count of the other dimension silently changes dimension;
+            # the model reports the vector as of the wrong length (the composition then raises, see the programs)
+            got = ("e", "shape")
+        cid = "fv%d" % k
+        lines.append("%s fromvec %d %s %s %d %s" % (cid, d, kind, " ".join(common.fq(float(x)) for x in h0.ravel()),
+                                                   len(vs), " ".join(vs)))
+        lenient = wrong and BASE.get(kind, kind) in ("Translation", "NonUniformScale")
+        expect[cid] = (got, float(np.abs(h0).sum()) + float(np.abs(v).sum()) + 1.0, dict(rp, lenient=lenient))
+        ctx.case(("fromvec", d, kind, len(vs), json.dumps(r, sort_keys=True)), nontrivial=True)
+        ctx.count("fromvec:%s" % (got[0] if got[0] == "ok" else got[1]))
+
+
 def decompose_cases(ctx, n, lines, expect):
-    """Affine.decompose(): oracle (chain of the pieces = the affine; fold of compose_before = the matrix) and the
-    model of the decomposition structure under numpy's SVD factors"""
+    """Affine.decompose(): oracle (chain of the pieces = the affine; fold of compose_before = the matrix; every piece
+    is honestly of the class it reports; receiver untouched), the SVD contract checked numerically, and the model of
+    the decomposition structure under numpy's SVD factors.  Four of ten transforms have been decomposed / printed
+    before and then composed in place with a translation (so that a stale decomposition would show)."""
     import numpy as np
     from functools import reduce
-    from menpo.transform import TransformChain
+    from menpo.transform import TransformChain, Translation
     rng = ctx.rng
     done = 0
     for k in range(n * 3):
@@ -896,12 +1445,26 @@ def decompose_cases(ctx, n, lines, expect):
         kind = rng.choice(["Affine", "Affine", "Similarity", "AlignmentAffine", "AlignmentSimilarity", "Rotation",
                            "Translation", "UniformScale", "NonUniformScale", "AlignmentRotation",
                            "AlignmentTranslation", "AlignmentUniformScale"])
-        r = gen_atom(rng, kind, d)
+        r = with_life(rng, gen_atom(rng, kind, d))
         o = build(r, [])
         site = "C03/decompose"
-        rp = {"d": d, "atom": r, "python": "import sys; sys.path[:0]=['/verif', %r]\nfrom harness import c03\n"
-              "t = c03.build(%s, [])\npieces = t.decompose()" % (common.REPO, json.dumps(r))}
+        history = None
+        py = ("import sys; sys.path[:0]=['/verif', %r]\nimport numpy as np\nfrom harness import c03\n"
+              "from menpo.transform import Translation\nt = c03.build(%s, [])\n" % (common.REPO, json.dumps(r)))
         discrete = BASE.get(kind, kind) in ("Rotation", "Translation", "UniformScale", "NonUniformScale")
+        if not discrete and rng.random() < 0.4:
+            tv = [float(dy(rng, 8, 1, nonzero=True)) for _ in range(d)]
+            history = [rng.choice(["decompose", "str"]), rng.choice(["compose_before_inplace", "compose_after_inplace"]), tv]
+            try:
+                o.decompose() if history[0] == "decompose" else str(o)
+                getattr(o, history[1])(Translation(np.array(tv)))
+            except Exception as e:
+                ctx.fail(site, "history-raises", "%s then %s raised %s" % (history[0], history[1], type(e).__name__),
+                         {"d": d, "atom": r, "history": history})
+                continue
+            py += "t.%s\nt.%s(Translation(np.array(%r)))\n" % ("decompose()" if history[0] == "decompose" else "__str__()",
+                                                              history[1], tv)
+        rp = {"d": d, "atom": r, "history": history, "python": py + "pieces = t.decompose()"}
         if not discrete:
             U, S, V = np.linalg.svd(o.linear_component)
             diffs = np.abs(S - S[0])
@@ -930,23 +1493,37 @@ def decompose_cases(ctx, n, lines, expect):
                       kind, folded.h_matrix.tolist() if is_family(folded) else kind_of(folded)), rp)
         ctx.check(digest(o) == before, site, "receiver-changed", "decompose() changed the %s" % kind, rp)
         ctx.check(all(p is not o for p in pieces), site, "aliases-receiver", "decompose() returned the object itself", rp)
-        ctx.case(("decompose", d, kind, json.dumps(r, sort_keys=True)), nontrivial=True,
-                 sample={"d": d, "decompose": kind, "pieces": [kind_of(p) for p in pieces]})
+        for p in pieces:
+            ctx.check(is_family(p) and honest(kind_of(p), p.h_matrix, 1e-12 * mag), site + ".honest", "piece=" + kind_of(p),
+                      "decompose() of a %s returned a %s whose matrix is not one: %s" % (kind, kind_of(p), p.h_matrix.tolist()),
+                      dict(rp, piece=kind_of(p), piece_matrix=p.h_matrix.tolist()))
+        ctx.case(("decompose", d, kind, json.dumps(history), json.dumps(r, sort_keys=True)), nontrivial=True,
+                 sample={"d": d, "decompose": kind, "pieces": [kind_of(p) for p in pieces], "history": history})
         ctx.count("decompose:" + kind)
+        if history:
+            ctx.count("decompose:after-history")
         if discrete:
             continue
-        # contract of the external routine, checked numerically
+        # contract of the external routine, checked numerically: L = U diag(s) V, U and V orthogonal, s > 0
         ctx.check(close_arrays(U.dot(np.diag(S)).dot(V), o.linear_component, mag), "C03/contract.svd", "usv",
                   "numpy's svd factors do not multiply back to the linear component", rp)
+        ctx.check(close_arrays(U.T.dot(U), np.eye(d), 1.0) and close_arrays(V.T.dot(V), np.eye(d), 1.0)
+                  and bool((S > 0).all()), "C03/contract.svd", "orthogonal-positive",
+                  "numpy's svd factors are not orthogonal / the singular values not positive", rp)
+        # the sign bookkeeping of `decompose_reflection`
+        dl, du, dv = (float(np.linalg.det(m)) for m in (o.linear_component, U, V))
+        ctx.check((dl < 0) == (du * dv < 0), "C03/contract.svd", "det-sign",
+                  "det U * det V has not the sign of det L", rp)
+        ctx.count("decompose:pieces-%s" % ("one-improper" if du * dv < 0 else "both-proper-or-both-improper"))
         cid = "dc%d" % k
         lines.append("%s decomp %d %d %s %s %s %s" % (
             cid, d, 1 if uniform_clear else 0, " ".join(common.fq(v) for v in U.ravel()),
             " ".join(common.fq(v) for v in V.ravel()), " ".join(common.fq(v) for v in S),
-            " ".join(common.fq(v) for v in o.translation_component)))
+            " ".join(common.fq(float(v)) for v in o.translation_component)))
         expect[cid] = ([(kind_of(p), p.h_matrix.copy()) for p in pieces], h0, mag, rp)
 
 
-def check_aux_replies(ctx, model, apply_expect, decomp_expect):
+def check_aux_replies(ctx, model, apply_expect, fv_expect, decomp_expect, aux):
     import numpy as np
     for cid, (y, mag, rp) in apply_expect.items():
         rep = model[cid].split()
@@ -956,6 +1533,21 @@ def check_aux_replies(ctx, model, apply_expect, decomp_expect):
         my = np.array([float(Fraction(t)) for t in rep[1:]])
         if not close_arrays(my, y, mag * 16.0, 100.0):
             ctx.mismatch("apply", "model %r vs implementation %r" % (my.tolist(), y.tolist()), rp)
+    for cid, (got, mag, rp) in fv_expect.items():
+        rep = model[cid].split()
+        if rep[0] == "e":
+            if not (got[0] == "e" and got[1] == rep[1]):
+                ctx.mismatch("fromvec", "model: %s, implementation %s" % (" ".join(rep), got[1] if got[0] == "e" else "a matrix"), rp)
+            continue
+        if rep[0] == "ok" and got == ("e", "shape") and rp.get("lenient"):
+            ctx.count("fromvec:wrong-length-refused-where-numpy-would-broadcast")
+            continue
+        if rep[0] != "ok" or got[0] != "ok":
+            ctx.mismatch("fromvec", "model: %s, implementation %s" % (" ".join(rep)[:80], got[1] if got[0] == "e" else "a matrix"), rp)
+            continue
+        mm = np.array([float(Fraction(t)) for t in rep[1:]]).reshape(got[1].shape)
+        if not close_arrays(mm, got[1], mag):
+            ctx.mismatch("fromvec", "model %r vs implementation %r" % (mm.tolist(), got[1].tolist()), rp)
     for cid, (pieces, h0, mag, rp) in decomp_expect.items():
         rep = model[cid]
         if not rep.startswith("ok"):
@@ -963,20 +1555,52 @@ def check_aux_replies(ctx, model, apply_expect, decomp_expect):
             continue
         d = h0.shape[0] - 1
         head, _, prod = rep[3:].partition(" # ")
-        cells = [parse_cell(c.strip().split(), d) for c in head.split(" ; ")]
+        cells = [parse_cell(c.strip().split()) for c in head.split(" ; ")]
         same = len(cells) == len(pieces) and all(
-            cells_agree(("F", nm, m), c, mag) for (nm, m), c in zip(pieces, cells))
+            cells_agree(("F", d, nm, m), c, mag) for (nm, m), c in zip(pieces, cells))
         if not same:
             ctx.mismatch("decomp", "model pieces %s vs implementation %s" % (
-                [c[1] for c in cells], [nm for nm, _ in pieces]), rp)
+                [c[2] for c in cells], [nm for nm, _ in pieces]), rp)
             continue
         pm = np.array([float(Fraction(t)) for t in prod.split()]).reshape(h0.shape)
         if not close_arrays(pm, h0, mag):
             ctx.mismatch("decomp", "model product of the pieces differs from the matrix", rp)
+    # chains applied by the model from the final store, and the dimension calculus
+    for aid, (got, odim, mag, rp) in aux["apply"].items():
+        rep = model[aid].split()
+        drep = model[aid + "_dim"].split()
+        if got[0] == "ok":
+            if rep[0] != "ok":
+                ctx.mismatch("chain.apply", "model: %s, implementation maps the probe to %r" % (rep[0], got[1].tolist()), rp)
+            else:
+                my = np.array([float(Fraction(t)) for t in rep[1:]])
+                if not close_arrays(my, got[1], mag * 16.0, 100.0):
+                    ctx.mismatch("chain.apply", "model %r vs implementation %r" % (my.tolist(), got[1].tolist()), rp)
+            if not (drep[0] == "ok" and int(drep[1]) == len(got[1]) and odim == len(got[1])):
+                ctx.mismatch("chain.dim", "dimension calculus: model %s, harness %r, implementation returned %d coordinates"
+                             % (" ".join(drep), odim, len(got[1])), rp)
+        else:
+            if rep[0] == "ok":
+                ctx.mismatch("chain.apply", "model maps the probe, implementation raises %s" % got[1], rp)
+            if drep[0] == "ok" or odim is not None:
+                ctx.mismatch("chain.dim", "dimension calculus accepts (model %s, harness %r) what the implementation "
+                             "refuses with %s" % (" ".join(drep), odim, got[1]), rp)
+    # chains appended to something that contains them
+    for cid, (variant, observed, final, rp) in aux["selfc"].items():
+        reply = model[cid]
+        compare_program(ctx, reply, [("i",)], final, [1e3] * 4, rp)
+        for i in (2, 3):
+            rep = model["%s_f%d" % (cid, i)].split()[0]
+            want = "ok" if variant == "control" else "none"
+            obs = observed[i]
+            if (rep == "none") != (obs == "recursion") or rep != want:
+                ctx.mismatch("chain.self-containing", "%s: object %d: model flat = %s, implementation apply: %s" % (
+                    variant, i, rep, obs), dict(rp, object=i))
 
 
 def withdims_battery(ctx, n):
-    """dimension-changing slicing (3-D to 2-D): oracle on the real code only (see INFO['partial'])"""
+    """dimension-changing slicing (3-D to 2-D) between transforms of every family class and thin-plate splines:
+    oracle on the real code (the model-checked counterpart is `cross_dimension_battery`)"""
     import numpy as np
     from menpo.transform import WithDims
     rng = ctx.rng
@@ -1017,35 +1641,46 @@ def withdims_battery(ctx, n):
 def generated(ctx):
     files, rows2, rows3 = extract_c03.generated_files()
     ctx.notes["class_table_rows"] = len(rows2)
+    ctx.notes["method_table_entries"] = len(extract_c03.METHODS) * (len(rows2) + len(extract_c03.OTHER_CLASSES))
     common.build_generated(ctx, files, extract_c03.GEN_TARGETS, extract_c03.N_OBLIGATIONS)
     ctx._c03_rows = (rows2, rows3)
 
 
+def new_aux():
+    return {"lines": [], "apply": {}, "selfc": {}}
+
+
 def flush(ctx, pending, extra_lines=()):
     """one driver run for everything queued"""
-    lines = [p[2] for p in pending] + list(extra_lines)
+    lines = [p[1] for p in pending] + list(extra_lines)
     if not lines:
         return {}
     model = common.run_driver(PROP, lines)
-    for cid, d, _line, results, final, mags, rp in pending:
-        compare_program(ctx, d, model[cid], results, final, mags, rp)
+    for cid, _line, results, final, mags, rp in pending:
+        compare_program(ctx, model[cid], results, final, mags, rp)
     return model
 
 
 def search(ctx):
-    """directed search after a broken tie (oracle on the real code only): the pair battery again with fresh
+    """directed search after a broken tie (oracle on the real code only): the batteries again with fresh
     parameters, then programs biased towards in-place calls followed by non-in-place calls on the same objects"""
     rows2, rows3 = getattr(ctx, "_c03_rows", (extract_c03.extract(2), extract_c03.extract(3)))
     sink = []
-    for d, rows in ((2, rows2), (3, rows3)):
-        pair_battery(ctx, d, extract_c03.wire(rows), sink, "s")
-        sequel_battery(ctx, d, extract_c03.wire(rows), sink, "t")
+    w2, w3 = extract_c03.wire(rows2), extract_c03.wire(rows3)
+    for d, wire in ((2, w2), (3, w3)):
+        pair_battery(ctx, d, wire, sink, "s")
+        sequel_battery(ctx, d, wire, sink, "t")
+        fromvector_battery(ctx, d, wire, sink, "u")
         ctx.searched += len(sink)
         if ctx.failures:
             return True
+    cross_dimension_battery(ctx, w2, sink, "x", new_aux())
+    nested_chain_battery(ctx, w2, sink, "n", new_aux())
+    ctx.searched += len(sink)
+    if ctx.failures:
+        return True
     for k in range(60):
-        random_programs(ctx, 25, {2: extract_c03.wire(rows2), 3: extract_c03.wire(rows3)}, sink, "sp%d_" % k, long=True,
-                        inplace_bias=0.55)
+        random_programs(ctx, 25, {2: w2, 3: w3}, sink, "sp%d_" % k, long=True, inplace_bias=0.55)
         ctx.searched += 25
         if ctx.failures:
             return True
@@ -1056,23 +1691,31 @@ def run(ctx):
     import warnings
     warnings.filterwarnings("ignore")
     common.prepare_lean(ctx, PROP, IMPORTS, THEOREMS, generated=generated)
-    ctx.trusted += ["harness/extract_c03.py (class-table extraction from live classes)",
-                    "numpy dot / svd (contract L = U diag(s) V checked numerically per decomposition case)"]
+    ctx.trusted += ["harness/extract_c03.py (class-table and method-table extraction from live classes)",
+                    "numpy dot / svd (contract L = U diag(s) V, U and V orthogonal, s > 0 checked numerically per "
+                    "decomposition case)"]
     rows2, rows3 = ctx._c03_rows
     w2, w3 = extract_c03.wire(rows2), extract_c03.wire(rows3)
     pending = []
+    aux = new_aux()
     for rep in range(ctx.n(1, 6)):
-        pair_battery(ctx, 2, w2, pending, "p%d_" % rep)
-        pair_battery(ctx, 3, w3, pending, "p%d_" % rep)
+        pair_battery(ctx, 2, w2, pending, "p%d_" % rep, aux)
+        pair_battery(ctx, 3, w3, pending, "p%d_" % rep, aux)
         sequel_battery(ctx, 2, w2, pending, "s%d_" % rep)
         sequel_battery(ctx, 3, w3, pending, "s%d_" % rep)
-    random_programs(ctx, ctx.n(150, 4000), {2: w2, 3: w3}, pending, "g", long=not ctx.quick())
-    lines, ap_expect, dc_expect = [], {}, {}
+        cross_dimension_battery(ctx, w2, pending, "x%d" % rep, aux)
+        fromvector_battery(ctx, 2, w2, pending, "v%d_" % rep)
+        fromvector_battery(ctx, 3, w3, pending, "v%d_" % rep)
+    nested_chain_battery(ctx, w2, pending, "n", aux)
+    self_containing_battery(ctx, w2, aux)
+    random_programs(ctx, ctx.n(150, 4000), {2: w2, 3: w3}, pending, "g", long=not ctx.quick(), aux=aux)
+    lines, ap_expect, fv_expect, dc_expect = [], {}, {}, {}
     apply_cases(ctx, ctx.n(80, 1500), {2: w2, 3: w3}, lines, ap_expect)
+    fromvec_cases(ctx, ctx.n(80, 1200), lines, fv_expect)
     decompose_cases(ctx, ctx.n(60, 1200), lines, dc_expect)
     withdims_battery(ctx, ctx.n(40, 600))
-    model = flush(ctx, pending, lines)
-    check_aux_replies(ctx, model, ap_expect, dc_expect)
+    model = flush(ctx, pending, lines + aux["lines"])
+    check_aux_replies(ctx, model, ap_expect, fv_expect, dc_expect, aux)
     return ctx.finish(search)
 
 
@@ -1092,13 +1735,14 @@ def replay(ctx, path):
     rows = extract_c03.extract(rp.get("d", 2))
     pending = []
     if "statements" in rp:
-        d = rp["d"]
         stmts = [tuple(s) for s in rp["statements"]]
-        w = run_program(ctx, d, rp["atoms"], stmts, "r0", extract_c03.wire(rows), pending, "replay")
+        aux = new_aux()
+        w = run_program(ctx, rp["atoms"], stmts, "r0", extract_c03.wire(rows), pending, "replay", aux)
         for s in stmts:
-            ctx.case(("replay",) + s)
-        model = flush(ctx, pending)
-        print("python:\n" + script_of(d, rp["atoms"], stmts))
+            ctx.case(("replay", json.dumps(s)))
+        model = flush(ctx, pending, aux["lines"])
+        check_aux_replies(ctx, model, {}, {}, {}, aux)
+        print("python:\n" + script_of(rp["atoms"], stmts))
         print("model         :", model.get("r0", "")[:1500])
         if w is not None:
             print("implementation:", " ; ".join(fmt_cell(w.cell(i)) for i in range(len(w.objs)))[:1500])
